@@ -48,6 +48,7 @@ func (p *Compiler) Compile(prog *loader.Program) (output string, err error) {
 	p.module = wir.NewModule(stkSize)
 	p.module.AddGlobal("$wa.runtime.closure_data", "", p.module.GenValueType_Ptr(p.module.VOID), false, nil)
 	wir.SetCurrentModule(p.module)
+	wir.VerifEvent("set", p.module)
 
 	p.CompileWatFiles(prog)
 
@@ -127,6 +128,7 @@ func (p *Compiler) Compile(prog *loader.Program) (output string, err error) {
 	// p.GenJsBind()
 	// p.GenJSBinding()
 
+	wir.VerifEvent("done", p.module)
 	return p.module.ToWatModule().String(), nil
 }
 
